@@ -49,6 +49,11 @@ class FakeMP(object):
     def Process(self, group=None, target=None, name=None, args=(), kwargs=None):
         return FakeProcess(self, target, name, args, kwargs or {})
 
+    def active_children(self):
+        """multiprocessing.active_children(): the live processes started by the calling process."""
+        me = self.current_proc()
+        return [p for p in self.processes if p.alive_quiet() and p.parent is me]
+
     # -- helpers
     def current_proc(self):
         t = self.sim.current
@@ -263,6 +268,7 @@ class FakeProcess(object):
         self.ignores_sigterm = False
         self.kill_failed = False
         self.daemon = False
+        self.parent = mp.current_proc()
 
     def start(self):
         sim = self.sim
